@@ -383,6 +383,40 @@ def opsInterp (t : Tables) (kind op : String) (args : List String) : Option Stri
     pure (match verifySpend (spendEnvV t ver lt sq) spk ss wit with
       | .ok => "accept"
       | .fail w => "reject(" ++ w ++ ")")
+  -- J accessors <spk> <ss> <wit> <is_legacy><is_segwit_v0><is_taproot_v1_key_spend><is_taproot_v1_script_spend>:<ecdsa|schnorr>
+  -- (the output-type flags of an `Interpreter` that `from_txdata` built, against Spec/Spend's classification)
+  | "J", "accessors" =>
+    match args with
+    | spk :: ss :: wit :: flags :: _ => do
+      let spk ← Hash.ofHex spk; let ss ← Hash.ofHex ss; let wit ← parseHexList wit
+      let spkOps ← parse spk
+      let segwitProg (k : SpkKind) : Bool := match k with | .p2wpkh _ | .p2wsh _ => true | _ => false
+      let expect : String :=
+        match classify spkOps with
+        | .p2wpkh _ | .p2wsh _ => "0100:ecdsa"
+        | .p2tr _ => if wit.length == 1 then "0010:schnorr" else "0001:schnorr"
+        | .p2sh _ =>
+          let nested := match (parse ss).map pushedStack with
+            | some (redeem :: _) => ((parse redeem).map fun r => segwitProg (classify r)).getD false
+            | _ => false
+          if nested then "0100:ecdsa" else "1000:ecdsa"
+        | .other => "1000:ecdsa"
+      pure (if flags == expect then "ok" else s!"bad:accessors-say({flags})-output-type-is({expect})")
+    | _ => none
+  -- C verify-sig <dom> <pk> <sig>   => true | false   (`Interpreter::verify_sig` = the independent oracle)
+  | "C", "verify-sig" =>
+    match args with
+    | dom :: pk :: sg :: _ => do
+      let dom ← dom.toNat?; let pk ← Hash.ofHex pk; let sg ← Hash.ofHex sg
+      pure (if t.dsigs.contains (dom, pk, sg) then "true" else "false")
+    | _ => none
+  -- C verify-sig-oob ... => false   (input index out of range: documented to return false)
+  | "C", "verify-sig-oob" => some "false"
+  -- J interp-reuse <same|diff> | info   (a second iteration over the same / a cloned Interpreter)
+  | "J", "interp-reuse" =>
+    match args with
+    | v :: _ => some (if v == "same" then "ok" else "bad:second-use-of-the-interpreter-object-differs")
+    | _ => none
   | "J", "interp-accepts-own-m" =>
     match args with
     | _m :: rest => do
